@@ -1037,7 +1037,7 @@ func (fr *Frame) collectNames() {
 // panicSite handles a point where the program panics under guard g.
 func (fr *Frame) panicSite(g *Term, st *State, kind string, pos token.Pos, desc string) {
 	c := fr.c
-	if !c.nopanic {
+	if !c.nopanic || !c.panicKindChecked(kind) {
 		return
 	}
 	n := c.panicCount[kind]
@@ -1052,7 +1052,7 @@ func (fr *Frame) mayPanicIf(g *Term, cond *Term, st *State, kind string, pos tok
 	if cond.S == "false" {
 		return g
 	}
-	if c.nopanic {
+	if c.nopanic && c.panicKindChecked(kind) {
 		n := c.panicCount[kind]
 		c.panicCount[kind] = n + 1
 		c.oblige(&Obligation{Name: fmt.Sprintf("%s/panic#%s.%d", c.unitName, kind, n), Func: c.unitName, Kind: "panic",
@@ -1062,6 +1062,19 @@ func (fr *Frame) mayPanicIf(g *Term, cond *Term, st *State, kind string, pos tok
 	// partial correctness: continue only when no panic
 	ng := c.define("g.np", tAnd(g, tNot(cond)))
 	return ng
+}
+
+// panicKindChecked: under "nopanic k1 k2 ..." only the listed kinds are obligations.
+func (c *Ctx) panicKindChecked(kind string) bool {
+	if c.unitContract == nil || len(c.unitContract.NoPanicKinds) == 0 {
+		return true
+	}
+	for _, k := range c.unitContract.NoPanicKinds {
+		if k == kind {
+			return true
+		}
+	}
+	return false
 }
 
 func (fr *Frame) describePanic(p *ssa.Panic) string {
